@@ -1,7 +1,7 @@
 (* RenumberProofsMain.v -- C10, part 8: renumber_objects_with = page-order pass ; dense pass.
    The two pass isomorphisms compose; page order is preserved; dense numbering; u32 boundary. *)
 From LV Require Import Base.Bytes Model.Obj Model.DocQ Model.PageTree Model.Traverse Model.Renumber
-  Spec.RenumberSpec Proofs.RenumberProofsMap Proofs.RenumberProofsTrav Proofs.RenumberProofs Proofs.RenumberProofsDense
+  Spec.RenumberSpec Proofs.RenumberProofsMap Proofs.RenumberProofsTrav Proofs.RenumberProofsTravO Proofs.RenumberProofs Proofs.RenumberProofsDense
   Proofs.RenumberProofsTop Proofs.RenumberProofsPage Proofs.RenumberProofsIter.
 
 (* ---------- the known-finding class, in words ---------- *)
@@ -58,18 +58,24 @@ Lemma dense_ids_length ids : forall s, length (dense_ids ids s) = length ids.
 Proof. induction ids as [|a l IH]; intro s; cbn [dense_ids length]; [reflexivity | f_equal; apply IH]. Qed.
 
 (* ---------- the main theorem ---------- *)
+Definition np_of (start : N) (d : rdoc) : oid := no_page start (map fst (doc_m d)).
+
 Definition renumber_post (start : N) (d d' : rdoc) (rho : oid -> oid) : Prop :=
-  (* one-to-one on the ids the document uses, and onto the ids the new document uses *)
-  inj_on (used d) rho /\
-  (forall x, used d' x <-> exists id, used d id /\ x = rho id) /\
-  (* trailer, reachable objects, bookmarks: the originals with references renamed *)
-  doc_tr d' = rename_dict rho (doc_tr d) /\
-  (forall id, reach (doc_tr d) (doc_m d) id -> lookup (doc_m d') (rho id) = option_map (rename rho) (lookup (doc_m d) id)) /\
-  (forall id, used d id -> ~ reach (doc_tr d) (doc_m d) id -> lookup (doc_m d') (rho id) = lookup (doc_m d) id) /\
-  bm_table d' = renumber_bookmarks_with rho (bm_table d) /\
-  bookmarks d' = bookmarks d /\ max_bookmark_id d' = max_bookmark_id d /\
-  (forall x, reach (doc_tr d') (doc_m d') x <-> exists id, reach (doc_tr d) (doc_m d) id /\ x = rho id) /\
+  let a := live (doc_m d) rho in
+  (* one-to-one on the ids that name objects, and onto the ids that name objects afterwards *)
+  inj_on (has_obj (doc_m d)) rho /\
   (forall x, has_obj (doc_m d') x <-> exists id, has_obj (doc_m d) id /\ x = rho id) /\
+  (* trailer, reachable objects: the originals with references renamed; a reference that names no object is
+     written as what it denotes, the null object *)
+  doc_tr d' = rename_dict_o a (doc_tr d) /\
+  (forall id, reach (doc_tr d) (doc_m d) id -> has_obj (doc_m d) id ->
+              lookup (doc_m d') (rho id) = option_map (rename_o a) (lookup (doc_m d) id)) /\
+  (forall id, has_obj (doc_m d) id -> ~ reach (doc_tr d) (doc_m d) id -> lookup (doc_m d') (rho id) = lookup (doc_m d) id) /\
+  (* bookmarks: the target renamed; a target that names no object becomes the "no page" id, which names no object *)
+  bm_table d' = renumber_bookmarks_with (live_or (doc_m d) rho (np_of start d)) (bm_table d) /\
+  ~ has_obj (doc_m d') (np_of start d) /\ fst (np_of start d) = 0%N /\
+  bookmarks d' = bookmarks d /\ max_bookmark_id d' = max_bookmark_id d /\
+  (forall x, reach (doc_tr d') (doc_m d') x <-> exists id, reach (doc_tr d) (doc_m d) id /\ has_obj (doc_m d) id /\ x = rho id) /\
   (* page order *)
   page_iter (base d') = map rho (page_iter (base d)) /\
   (* dense numbering, generations kept in key order, max_id *)
@@ -79,71 +85,78 @@ Definition renumber_post (start : N) (d d' : rdoc) (rho : oid -> oid) : Prop :=
   sorted_keys (doc_m d') /\
   d_version (base d') = d_version (base d) /\ d_binary_mark (base d') = d_binary_mark (base d).
 
+Lemma no_page_zero start ids : fst (no_page start ids) = 0%N.
+Proof. unfold no_page. destruct ids as [|[i g] ids]; [reflexivity|]. destruct ((g =? 0) && (start =? 0))%N; reflexivity. Qed.
+
+Lemma option_map_rename_o_comp f a (o : option obj) :
+  option_map (rename_o a) (option_map (rename f) o) = option_map (rename_o (fun x => a (f x))) o.
+Proof. destruct o; cbn [option_map]; [rewrite rename_o_rename|]; reflexivity. Qed.
+
+Lemma option_map_rename_o_ext f g (o : option obj) : (forall x, f x = g x) -> option_map (rename_o f) o = option_map (rename_o g) o.
+Proof. intro H. destruct o; cbn [option_map]; [|reflexivity]. f_equal. apply rename_o_ext. intros; apply H. Qed.
+
 Theorem renumber_main start d :
-  sorted_keys (doc_m d) -> fits start d -> KnownClass start d = false ->
+  sorted_keys (doc_m d) -> fits start d ->
   exists d' rho, renumber_objects_with start d = Done d' /\ renumber_post start d d' rho.
 Proof.
-  intros Sm F K.
+  intros Sm F.
   destruct (page_order_pass_spec d Sm) as [d1 [rho1 [E1 [Iso1 [Fix1 [Keys1 [K1 _]]]]]]].
   destruct Iso1 as [Inj1 [Tr1 [In1 [Out1 [Reach1 [Has1 [S1 [Bm1 [Bk1 [Mb1 [V1 B1]]]]]]]]]]].
   pose proof (keys_length _ _ K1) as L1.
   assert (Hsame : forall x, has_obj (doc_m d1) x <-> has_obj (doc_m d) x) by (intro x; unfold has_obj; rewrite K1; tauto).
-  assert (Hdang : forall x, used d1 x -> ~ has_obj (doc_m d1) x -> used d x).
-  { intros x U Hn. assert (Hback : forall id, x = rho1 id -> x = id).
-    { intros id ->. apply Fix1. intro Hid. apply Hn. apply Hsame. apply Keys1. exact Hid. }
-    destruct U as [U|[U|U]]; [contradiction| |].
-    - apply Reach1 in U. destruct U as [id [Hid Ex]]. rewrite (Hback id Ex). right; left; exact Hid.
-    - rewrite (bm_targets_rename rho1 d d1 Bm1) in U. apply in_map_iff in U. destruct U as [id [Ex Hid]]. symmetry in Ex.
-      rewrite (Hback id Ex). right; right; exact Hid. }
-  destruct (dense_pass_spec d1 start (used d1) S1) as [d' [rho2 [E2 [F2 [Inj2 [Tr2 [In2 [Out2 [Reach2 [K2 [Mx2 [Bm2 [Bk2 [Mb2 [V2 B2]]]]]]]]]]]]]]].
+  assert (Hlive : forall x, has_obj (doc_m d1) (rho1 x) <-> has_obj (doc_m d) x).
+  { intro x. rewrite Hsame. apply Keys1. }
+  destruct (dense_pass_spec d1 start S1) as [d' [rho2 [E2 [F2 [Inj2 [Tr2 [In2 [Out2 [Reach2 [K2 [Mx2 [Bm2 [Bk2 [Mb2 [V2 B2]]]]]]]]]]]]]]].
   { unfold fits in F. unfold doc_m in L1. rewrite L1. unfold U32_MAX. lia. }
-  { intros x Hx. left; exact Hx. }
-  { intros x Hx. right; left; exact Hx. }
-  { intros x U Hn. unfold doc_m in L1. rewrite L1. apply (not_known_out start d K x); [apply Hdang; assumption|].
-    intro Hx. apply Hn. apply Hsame. exact Hx. }
   fold (doc_tr d1) in *. fold (doc_m d1) in *.
   assert (ND1 : NoDup (map fst (doc_m d1))) by (apply sorted_nodup; exact S1).
   assert (Has2 : forall x, has_obj (doc_m d') x <-> exists id, has_obj (doc_m d1) id /\ x = rho2 id).
   { intro x. unfold has_obj, doc_m at 1. rewrite K2. rewrite (dense_ids_in _ start x ND1). split.
     - intros [id [Hid ->]]. exists id. split; [exact Hid | symmetry; apply F2].
     - intros [id [Hid ->]]. exists id. split; [exact Hid | apply F2]. }
-  assert (Himg : forall id, used d id -> used d1 (rho1 id)).
-  { intros id [U|[U|U]].
-    - left. apply Has1. exists id. auto.
-    - right; left. apply Reach1. exists id. auto.
-    - right; right. rewrite (bm_targets_rename rho1 d d1 Bm1). apply in_map. exact U. }
-  exists d', (fun x => rho2 (rho1 x)). split.
+  set (rho := fun x => rho2 (rho1 x)).
+  assert (Ea : forall x, live (doc_m d1) rho2 (rho1 x) = live (doc_m d) rho x).
+  { intro x. unfold live, rho. destruct (lookup (doc_m d1) (rho1 x)) eqn:A1; destruct (lookup (doc_m d) x) eqn:A2; try reflexivity; exfalso.
+    - apply lookup_has in A1. apply Hlive in A1. apply lookup_none in A2. contradiction.
+    - apply lookup_has in A2. apply Hlive in A2. apply lookup_none in A1. contradiction. }
+  assert (Eb : forall np x, live_or (doc_m d1) rho2 np (rho1 x) = live_or (doc_m d) rho np x).
+  { intros np x. unfold live_or, rho. destruct (lookup (doc_m d1) (rho1 x)) eqn:A1; destruct (lookup (doc_m d) x) eqn:A2; try reflexivity; exfalso.
+    - apply lookup_has in A1. apply Hlive in A1. apply lookup_none in A2. contradiction.
+    - apply lookup_has in A2. apply Hlive in A2. apply lookup_none in A1. contradiction. }
+  exists d', rho. split.
   { unfold renumber_objects_with. rewrite E1. exact E2. }
-  assert (Hin : forall id, reach (doc_tr d) (doc_m d) id ->
-            lookup (doc_m d') (rho2 (rho1 id)) = option_map (rename (fun x => rho2 (rho1 x))) (lookup (doc_m d) id)).
-  { intros id Hid. unfold doc_m at 1. rewrite In2 by (apply Reach1; exists id; auto). rewrite In1 by exact Hid. apply option_map_rename_comp. }
-  assert (Hreach : forall x, reach (doc_tr d') (doc_m d') x <-> exists id, reach (doc_tr d) (doc_m d) id /\ x = rho2 (rho1 id)).
+  assert (Hin : forall id, reach (doc_tr d) (doc_m d) id -> has_obj (doc_m d) id ->
+            lookup (doc_m d') (rho id) = option_map (rename_o (live (doc_m d) rho)) (lookup (doc_m d) id)).
+  { intros id Hid Hh. unfold doc_m at 1, rho. rewrite In2; [|apply Reach1; exists id; auto | apply Hlive; exact Hh].
+    rewrite In1 by exact Hid. rewrite option_map_rename_o_comp. apply option_map_rename_o_ext. exact Ea. }
+  assert (Hreach : forall x, reach (doc_tr d') (doc_m d') x <->
+                             exists id, reach (doc_tr d) (doc_m d) id /\ has_obj (doc_m d) id /\ x = rho id).
   { intro x. unfold doc_tr at 1, doc_m at 1. rewrite Reach2. split.
-    - intros [y [Hy ->]]. apply Reach1 in Hy. destruct Hy as [id [Hid ->]]. exists id. auto.
-    - intros [id [Hid ->]]. exists (rho1 id). split; [apply Reach1; exists id; auto | reflexivity]. }
-  assert (Hhas : forall x, has_obj (doc_m d') x <-> exists id, has_obj (doc_m d) id /\ x = rho2 (rho1 id)).
+    - intros [y [Hy [Hh ->]]]. apply Reach1 in Hy. destruct Hy as [id [Hid ->]]. exists id. split; [exact Hid|]. split; [apply Hlive; exact Hh | reflexivity].
+    - intros [id [Hid [Hh ->]]]. exists (rho1 id). split; [apply Reach1; exists id; auto|]. split; [apply Hlive; exact Hh | reflexivity]. }
+  assert (Hhas : forall x, has_obj (doc_m d') x <-> exists id, has_obj (doc_m d) id /\ x = rho id).
   { intro x. rewrite Has2. split.
     - intros [y [Hy ->]]. apply Has1 in Hy. destruct Hy as [id [Hid ->]]. exists id. auto.
     - intros [id [Hid ->]]. exists (rho1 id). split; [apply Has1; exists id; auto | reflexivity]. }
-  assert (Hbm : bm_table d' = renumber_bookmarks_with (fun x => rho2 (rho1 x)) (bm_table d))
-    by (rewrite Bm2, Bm1; apply renumber_bookmarks_comp).
-  assert (Htr : doc_tr d' = rename_dict (fun x => rho2 (rho1 x)) (doc_tr d))
-    by (unfold doc_tr at 1; rewrite Tr2, Tr1; apply rename_dict_comp).
-  unfold renumber_post.
-  split. { intros a b Ua Ub E. apply (Inj1 a b I I). apply (Inj2 _ _ (Himg a Ua) (Himg b Ub) E). }
+  assert (Enp : no_page start (map fst (doc_m d1)) = np_of start d) by (unfold np_of; rewrite K1; reflexivity).
+  assert (Hbm : bm_table d' = renumber_bookmarks_with (live_or (doc_m d) rho (np_of start d)) (bm_table d)).
+  { rewrite Bm2, Bm1, renumber_bookmarks_comp, Enp. unfold renumber_bookmarks_with. apply map_ext. intro kb. rewrite Eb. reflexivity. }
+  assert (Htr : doc_tr d' = rename_dict_o (live (doc_m d) rho) (doc_tr d)).
+  { unfold doc_tr at 1. rewrite Tr2, Tr1, rename_dict_o_rename. apply rename_dict_o_ext. intros; apply Ea. }
+  unfold renumber_post. cbv zeta.
+  split. { intros x y Hx Hy E. apply (Inj1 x y I I). apply Inj2; [apply Hlive; exact Hx | apply Hlive; exact Hy | exact E]. }
+  split; [exact Hhas|]. split; [exact Htr|]. split; [exact Hin|].
   split.
-  { intro x. unfold used at 1. fold (doc_m d') (doc_tr d'). rewrite Hhas, Hreach, (bm_targets_rename _ d d' Hbm), in_map_iff. split.
-    - intros [[id [H ->]]|[[id [H ->]]|[id [<- H]]]]; exists id; (split; [|reflexivity]); [left | right; left | right; right]; exact H.
-    - intros [id [[H|[H|H]] ->]]; [left | right; left | right; right]; exists id; auto. }
-  split; [exact Htr|]. split; [exact Hin|].
-  split.
-  { intros id U Hn. unfold doc_m at 1. rewrite Out2.
+  { intros id Hh Hn. unfold doc_m at 1, rho. rewrite Out2.
     - apply Out1; [exact I | exact Hn].
-    - apply Himg; exact U.
+    - apply Hlive; exact Hh.
     - intro R. apply Reach1 in R. destruct R as [id' [Hid' E]]. apply Hn. rewrite (Inj1 id id' I I E). exact Hid'. }
-  split; [exact Hbm|]. split; [congruence|]. split; [congruence|]. split; [exact Hreach|]. split; [exact Hhas|].
+  split; [exact Hbm|].
+  split. { unfold has_obj, doc_m at 1. rewrite K2, <- Enp. apply no_page_fresh. }
+  split; [apply no_page_zero|].
+  split; [congruence|]. split; [congruence|]. split; [exact Hreach|].
   split.
-  { apply page_iter_sim; [exact Htr | exact Hin|]. fold (doc_m d') (doc_m d). rewrite <- (map_length fst (doc_m d')).
+  { apply page_iter_sim_o; [exact Htr | exact Hin|]. fold (doc_m d') (doc_m d). rewrite <- (map_length fst (doc_m d')).
     unfold doc_m at 1. rewrite K2, dense_ids_length, map_length. exact L1. }
   split. { unfold doc_m at 1. rewrite K2, dense_ids_nums, map_length, L1. reflexivity. }
   split. { unfold doc_m at 1. rewrite K2, dense_ids_gens. fold (doc_m d1). rewrite K1. reflexivity. }
@@ -168,33 +181,58 @@ Qed.
 Section Consequences.
   Variables (start : N) (d d' : rdoc) (rho : oid -> oid).
   Hypothesis Post : renumber_post start d d' rho.
+  Let a := live (doc_m d) rho.
 
-  (* every reference resolves to the same content as before (with references renamed) *)
+  (* every reference that resolved to an object resolves to the same content as before (with references renamed) *)
   Corollary deref_same id o :
-    reach (doc_tr d) (doc_m d) id -> lookup (doc_m d) id = Some o -> lookup (doc_m d') (rho id) = Some (rename rho o).
-  Proof. intros R L. destruct Post as [_ [_ [_ [H _]]]]. rewrite H by exact R. rewrite L. reflexivity. Qed.
-
-  (* a reference (or bookmark target) that resolved to nothing still resolves to nothing *)
-  Corollary dangling_stays_dangling id :
-    used d id -> lookup (doc_m d) id = None -> lookup (doc_m d') (rho id) = None.
+    reach (doc_tr d) (doc_m d) id -> lookup (doc_m d) id = Some o -> lookup (doc_m d') (rho id) = Some (rename_o a o).
   Proof.
-    intros U L. destruct Post as [_ [_ [_ [Hin [Hout _]]]]].
-    destruct (in_dec oid_eq_dec id (reach_list (doc_tr d) (doc_m d))) as [R|R].
-    - apply reach_list_spec in R. rewrite Hin by exact R. rewrite L. reflexivity.
-    - rewrite Hout; [exact L | exact U|]. intro H. apply R. apply reach_list_spec. exact H.
+    intros R L. destruct Post as [_ [_ [_ [H _]]]]. rewrite H; [rewrite L; reflexivity | exact R | eapply lookup_has; eauto].
+  Qed.
+
+  (* a reference that resolved to nothing has no image: it is written as the null object, which is what it denoted *)
+  Corollary dangling_is_null id : lookup (doc_m d) id = None -> rename_o a (ref_obj id) = ONull.
+  Proof. intro L. unfold ref_obj. cbn [rename_o]. rewrite <- surjective_pairing. unfold a, live. rewrite L. reflexivity. Qed.
+
+  (* ISO 32000-1 7.3.10 reading, one statement for both cases: what a reachable reference denotes afterwards is
+     what it denoted before, renamed -- the object it named, or the null object *)
+  Corollary denote_same id :
+    reach (doc_tr d) (doc_m d) id -> denote (doc_m d') (rename_o a (ref_obj id)) = rename_o a (denote (doc_m d) (ref_obj id)).
+  Proof.
+    intro R. unfold ref_obj at 2. cbn [denote]. rewrite <- surjective_pairing. destruct (lookup (doc_m d) id) as [o|] eqn:L.
+    - unfold ref_obj. cbn [rename_o]. rewrite <- surjective_pairing. unfold a at 1, live. rewrite L. unfold ref_obj. cbn [denote].
+      rewrite <- surjective_pairing. rewrite (deref_same id o R L). reflexivity.
+    - rewrite (dangling_is_null id L). reflexivity.
+  Qed.
+
+  (* afterwards no reachable reference is dangling *)
+  Corollary closed_after : closed (doc_tr d') (doc_m d').
+  Proof.
+    intros x Hx. destruct Post as [_ [Hhas [_ [_ [_ [_ [_ [_ [_ [_ [Hreach _]]]]]]]]]]].
+    apply Hreach in Hx. destruct Hx as [id [_ [Hh ->]]]. apply Hhas. exists id. auto.
   Qed.
 
   (* a bookmark target that named an object names the same object (renamed if reachable) *)
   Corollary bookmark_targets_same id o :
     In id (bm_targets d) -> lookup (doc_m d) id = Some o ->
     In (rho id) (bm_targets d') /\
-    (lookup (doc_m d') (rho id) = Some (rename rho o) \/ lookup (doc_m d') (rho id) = Some o).
+    (lookup (doc_m d') (rho id) = Some (rename_o a o) \/ lookup (doc_m d') (rho id) = Some o).
   Proof.
     intros B L. destruct Post as [_ [_ [_ [Hin [Hout [Hbm _]]]]]]. split.
-    - rewrite (bm_targets_rename rho d d' Hbm). apply in_map. exact B.
-    - destruct (in_dec oid_eq_dec id (reach_list (doc_tr d) (doc_m d))) as [R|R].
-      + left. apply reach_list_spec in R. rewrite Hin by exact R. rewrite L. reflexivity.
-      + right. rewrite Hout; [exact L | right; right; exact B|]. intro H. apply R. apply reach_list_spec. exact H.
+    - rewrite (bm_targets_rename _ d d' Hbm). apply in_map_iff. exists id. split; [|exact B]. unfold live_or. rewrite L. reflexivity.
+    - assert (Hh : has_obj (doc_m d) id) by (eapply lookup_has; eauto).
+      destruct (in_dec oid_eq_dec id (reach_list (doc_tr d) (doc_m d))) as [R|R].
+      + left. apply reach_list_spec in R. rewrite Hin by assumption. rewrite L. reflexivity.
+      + right. rewrite Hout; [exact L | exact Hh|]. intro H. apply R. apply reach_list_spec. exact H.
+  Qed.
+
+  (* a bookmark target that named no object is the "no page" id afterwards: number 0, names no object *)
+  Corollary bookmark_dangling id :
+    In id (bm_targets d) -> lookup (doc_m d) id = None ->
+    In (np_of start d) (bm_targets d') /\ lookup (doc_m d') (np_of start d) = None /\ fst (np_of start d) = 0%N.
+  Proof.
+    intros B L. destruct Post as [_ [_ [_ [_ [_ [Hbm [Hnp [Hz _]]]]]]]]. split; [|split; [apply lookup_none; exact Hnp | exact Hz]].
+    rewrite (bm_targets_rename _ d d' Hbm). apply in_map_iff. exists id. split; [|exact B]. unfold live_or. rewrite L. reflexivity.
   Qed.
 
   Corollary page_order_preserved : page_iter (base d') = map rho (page_iter (base d)).
@@ -203,7 +241,7 @@ Section Consequences.
   Corollary numbers_consecutive :
     map fst (map fst (doc_m d')) = nums_from start (length (doc_m d)) /\ length (doc_m d') = length (doc_m d).
   Proof.
-    destruct Post as [_ [_ [_ [_ [_ [_ [_ [_ [_ [_ [_ [H _]]]]]]]]]]]]. split; [exact H|].
+    destruct Post as [_ [_ [_ [_ [_ [_ [_ [_ [_ [_ [_ [_ [H _]]]]]]]]]]]]]. split; [exact H|].
     assert (L : length (map fst (map fst (doc_m d'))) = length (nums_from start (length (doc_m d)))) by (rewrite H; reflexivity).
     rewrite !map_length in L. rewrite L. clear. generalize start. induction (length (doc_m d)); intro s; cbn; [reflexivity | f_equal; auto].
   Qed.
@@ -212,61 +250,93 @@ Section Consequences.
     doc_m d <> [] -> d_max_id (base d') = last (map fst (map fst (doc_m d'))) 0%N.
   Proof.
     intro Hne. destruct numbers_consecutive as [H _]. rewrite H.
-    destruct Post as [_ [_ [_ [_ [_ [_ [_ [_ [_ [_ [_ [_ [_ [Hm _]]]]]]]]]]]]]]. rewrite Hm.
+    destruct Post as [_ [_ [_ [_ [_ [_ [_ [_ [_ [_ [_ [_ [_ [_ [Hm _]]]]]]]]]]]]]]]. rewrite Hm.
     apply dense_max_is_last. exact Hne.
   Qed.
 End Consequences.
 
 (* ---------- non-vacuity: a concrete document meets the hypotheses and both passes do work ---------- *)
 Theorem ex_swap_main :
-  sorted_keys (doc_m ex_swap) /\ fits 1 ex_swap /\ KnownClass 1 ex_swap = false /\
+  sorted_keys (doc_m ex_swap) /\ fits 1 ex_swap /\
   ~ closed (doc_tr ex_swap) (doc_m ex_swap) /\
+  dict_get (doc_tr ex_swap) (bs "Far") = Some (ORef 77 0) /\
   page_iter (base ex_swap) = [(8,1); (3,0)]%N /\
   exists d', renumber_objects_with 1 ex_swap = Done d' /\
     map fst (doc_m d') = [(1,0); (2,0); (3,0); (4,0); (5,1)]%N /\
     page_iter (base d') = [(3,0); (5,1)]%N /\
     bm_targets d' = [(3,0); (5,1); (5,1)]%N /\
-    lookup (doc_m d') (77,0)%N = None /\
+    dict_get (doc_tr d') (bs "Far") = Some ONull /\
     d_max_id (base d') = 5%N.
 Proof.
   destruct ex_swap_hyps as [H1 [H2 [H3 [H4 [d' [E [K [P [B M]]]]]]]]].
-  split; [exact H1|]. split; [exact H2|]. split; [exact H3|]. split.
+  split; [exact H1|]. split; [exact H2|]. split.
   - intro C. assert (R : reach (doc_tr ex_swap) (doc_m ex_swap) (77,0)%N) by (apply reach_root; right; left; reflexivity).
     apply C in R. unfold has_obj in R. vm_compute in R. intuition discriminate.
-  - split; [exact H4|]. exists d'. split; [exact E|]. split; [exact K|]. split; [exact P|]. split; [exact B|]. split; [|exact M].
+  - split; [vm_compute; reflexivity|]. split; [exact H4|]. exists d'. split; [exact E|]. split; [exact K|]. split; [exact P|]. split; [exact B|]. split; [|exact M].
     assert (E' : renumber_objects_with 1 ex_swap = Done d') by exact E. clear - E'. vm_compute in E'. inversion E'. reflexivity.
 Qed.
 
 (* ---------- the statement used by Props/C10.v, written out ---------- *)
 Theorem renumber_iso :
   forall start d,
-    sorted_keys (d_objects (base d)) -> fits start d -> KnownClass start d = false ->
+    sorted_keys (d_objects (base d)) -> fits start d ->
     exists d' rho,
       renumber_objects_with start d = Done d' /\
-      inj_on (used d) rho /\
-      (forall x, used d' x <-> exists id, used d id /\ x = rho id) /\
-      d_trailer (base d') = rename_dict rho (d_trailer (base d)) /\
-      (forall id, reach (d_trailer (base d)) (d_objects (base d)) id ->
-                  lookup (d_objects (base d')) (rho id) = option_map (rename rho) (lookup (d_objects (base d)) id)) /\
-      (forall id, used d id -> ~ reach (d_trailer (base d)) (d_objects (base d)) id ->
-                  lookup (d_objects (base d')) (rho id) = lookup (d_objects (base d)) id) /\
-      bm_table d' = renumber_bookmarks_with rho (bm_table d) /\
+      let m := d_objects (base d) in let tr := d_trailer (base d) in
+      let m' := d_objects (base d') in let tr' := d_trailer (base d') in
+      let a := live m rho in
+      let np := no_page start (map fst m) in
+      inj_on (has_obj m) rho /\
+      (forall x, has_obj m' x <-> exists id, has_obj m id /\ x = rho id) /\
+      tr' = rename_dict_o a tr /\
+      (forall id, reach tr m id -> has_obj m id -> lookup m' (rho id) = option_map (rename_o a) (lookup m id)) /\
+      (forall id, has_obj m id -> ~ reach tr m id -> lookup m' (rho id) = lookup m id) /\
+      bm_table d' = renumber_bookmarks_with (live_or m rho np) (bm_table d) /\
+      ~ has_obj m' np /\ fst np = 0%N /\
       bookmarks d' = bookmarks d /\ max_bookmark_id d' = max_bookmark_id d /\
-      (forall x, reach (d_trailer (base d')) (d_objects (base d')) x <->
-                 exists id, reach (d_trailer (base d)) (d_objects (base d)) id /\ x = rho id) /\
-      (forall x, has_obj (d_objects (base d')) x <-> exists id, has_obj (d_objects (base d)) id /\ x = rho id) /\
-      (forall id o, reach (d_trailer (base d)) (d_objects (base d)) id -> lookup (d_objects (base d)) id = Some o ->
-                    lookup (d_objects (base d')) (rho id) = Some (rename rho o)) /\
-      (forall id, used d id -> lookup (d_objects (base d)) id = None -> lookup (d_objects (base d')) (rho id) = None) /\
+      (forall x, reach tr' m' x <-> exists id, reach tr m id /\ has_obj m id /\ x = rho id) /\
+      closed tr' m' /\
+      (forall id o, reach tr m id -> lookup m id = Some o -> lookup m' (rho id) = Some (rename_o a o)) /\
+      (forall id, lookup m id = None -> rename_o a (ref_obj id) = ONull) /\
+      (forall id, reach tr m id -> denote m' (rename_o a (ref_obj id)) = rename_o a (denote m (ref_obj id))) /\
+      (forall id, In id (bm_targets d) -> lookup m id = None -> In np (bm_targets d') /\ lookup m' np = None) /\
       page_iter (base d') = map rho (page_iter (base d)) /\
       d_version (base d') = d_version (base d) /\ d_binary_mark (base d') = d_binary_mark (base d).
 Proof.
-  intros start d Sm F K. destruct (renumber_main start d Sm F K) as [d' [rho [E Post]]].
-  pose proof (deref_same start d d' rho Post) as C1. pose proof (dangling_stays_dangling start d d' rho Post) as C2.
-  destruct Post as [P1 [P2 [P3 [P4 [P5 [P6 [P7 [P8 [P9 [P10 [P11 [_ [_ [_ [_ [P16 P17]]]]]]]]]]]]]]]].
-  exists d', rho. repeat (split; [assumption|]). assumption.
+  intros start d Sm F. destruct (renumber_main start d Sm F) as [d' [rho [E Post]]].
+  pose proof (deref_same start d d' rho Post) as C1. pose proof (dangling_is_null d rho) as C2.
+  pose proof (denote_same start d d' rho Post) as C3. pose proof (closed_after start d d' rho Post) as C4.
+  pose proof (bookmark_dangling start d d' rho Post) as C5.
+  destruct Post as [P1 [P2 [P3 [P4 [P5 [P6 [P7 [P8 [P9 [P10 [P11 [P12 [_ [_ [_ [_ [P17 P18]]]]]]]]]]]]]]]]].
+  exists d', rho. split; [exact E|]. cbv zeta. unfold doc_m, doc_tr, np_of in *.
+  repeat (split; [assumption|]). split; [|split; [assumption|split; assumption]].
+  intros id B L. destruct (C5 id B L) as [X [Y _]]. auto.
 Qed.
 
+Theorem renumber_dense_all :
+  forall start d,
+    sorted_keys (d_objects (base d)) -> fits start d ->
+    exists d',
+      renumber_objects_with start d = Done d' /\
+      length (d_objects (base d')) = length (d_objects (base d)) /\
+      map fst (map fst (d_objects (base d'))) = nums_from start (length (d_objects (base d))) /\
+      map snd (map fst (d_objects (base d'))) = map snd (map fst (d_objects (base d))) /\
+      sorted_keys (d_objects (base d')) /\
+      (d_objects (base d) <> [] -> d_max_id (base d') = last (map fst (map fst (d_objects (base d')))) 0%N) /\
+      (d_objects (base d) <> [] -> d_max_id (base d') = (start + N.of_nat (length (d_objects (base d))) - 1)%N) /\
+      (d_objects (base d) = [] -> d_max_id (base d') = if (start =? 0)%N then 0%N else (start - 1)%N).
+Proof.
+  intros start d Sm F. destruct (renumber_main start d Sm F) as [d' [rho [E Post]]].
+  destruct (numbers_consecutive start d d' rho Post) as [N1 N2]. pose proof (max_id_is_last start d d' rho Post) as N3.
+  destruct Post as [_ [_ [_ [_ [_ [_ [_ [_ [_ [_ [_ [_ [_ [G [Mx [S _]]]]]]]]]]]]]]]].
+  exists d'. split; [exact E|]. split; [exact N2|]. split; [exact N1|]. split; [exact G|]. split; [exact S|].
+  split; [exact N3|]. unfold dense_max, doc_m in Mx. split.
+  - intro Hne. rewrite Mx. destruct (d_objects (base d)); [congruence | reflexivity].
+  - intro He. rewrite Mx, He. reflexivity.
+Qed.
+
+(* the form with the hypothesis of the former known-finding class, kept for Proofs/EditProofs*.v (C11), which
+   still pass it; it is not needed any more *)
 Theorem renumber_dense :
   forall start d,
     sorted_keys (d_objects (base d)) -> fits start d -> KnownClass start d = false ->
@@ -279,15 +349,7 @@ Theorem renumber_dense :
       (d_objects (base d) <> [] -> d_max_id (base d') = last (map fst (map fst (d_objects (base d')))) 0%N) /\
       (d_objects (base d) <> [] -> d_max_id (base d') = (start + N.of_nat (length (d_objects (base d))) - 1)%N) /\
       (d_objects (base d) = [] -> d_max_id (base d') = if (start =? 0)%N then 0%N else (start - 1)%N).
-Proof.
-  intros start d Sm F K. destruct (renumber_main start d Sm F K) as [d' [rho [E Post]]].
-  destruct (numbers_consecutive start d d' rho Post) as [N1 N2]. pose proof (max_id_is_last start d d' rho Post) as N3.
-  destruct Post as [_ [_ [_ [_ [_ [_ [_ [_ [_ [_ [_ [_ [G [Mx [S _]]]]]]]]]]]]]]].
-  exists d'. split; [exact E|]. split; [exact N2|]. split; [exact N1|]. split; [exact G|]. split; [exact S|].
-  split; [exact N3|]. unfold dense_max, doc_m in Mx. split.
-  - intro Hne. rewrite Mx. destruct (d_objects (base d)); [congruence | reflexivity].
-  - intro He. rewrite Mx, He. reflexivity.
-Qed.
+Proof. intros start d Sm F _. exact (renumber_dense_all start d Sm F). Qed.
 
 (* renumber_objects() is renumber_objects_with(1); a document with fewer than 2^32 objects fits *)
 Lemma renumber_objects_is_with_1 d : renumber_objects d = renumber_objects_with 1 d.
